@@ -41,7 +41,7 @@ CHECKS = {
     "C06": {
         "technique": "property-based testing: exact comparison of polygon rings with reference cells computed from the spec; warnings inspected; bounds exact, geometry vs union",
         "text": "All coordinate classes per convention (ascending/descending/non-uniform axes, bounds absent/contiguous off-midpoint/with gaps and in either row order, skewed 2-D grids with and without bounds, holes, twisted cells, node grids with masked regions, meshes 0/1-based with NaN/integer fill, transposed tables, bow-tie faces, coordinates as coordinates or plain variables; raw, CF-decoded and through netCDF). Each polygon ring must equal the reference corner sequence exactly, missing/invalid cells must be None with mask False and an InvalidPolygonWarning naming them, the array read-only, bounds exact and geometry equal to the union of the cells. After the reads every dataset variable must be bit-identical to what it was and a second convention object on the same dataset must report the same polygons. Cells may overlap (1-D bounds, mesh faces): the geometry must be a valid shape equal to their union. Unsigned connectivity tables, column-major geometry arrays.",
-        "note": "2-D CF grids without stored bounds: validity only (the statements define no construction). Bounds/geometry asserted only when no invalid cells or stray mesh nodes exist.",
+        "note": "2-D CF grids without stored bounds: validity only (the statements define no construction). Bounds and geometry are asserted against the valid reference cells in every case (also with dropped cells and mesh nodes that no face uses).",
         "design": "5/C06",
     },
     "C07": {
